@@ -343,6 +343,8 @@ def run_shard(spec):
         rng = random.Random(sd)
         d = rng.choice([2, 2, 3])
         params = {"L": [rng.choice([1.0, 2.0, 0.5, 10.0]) for _ in range(d)]}
+        if rng.random() < 0.3:
+            params = {"L": [rng.choice([1, 2, 4, 10]) for _ in range(d)]}          # integers, as in the class docstring's example
         try:
             with contextlib.redirect_stdout(io.StringIO()):
                 s_ = c03.Session("BlockSmoothConvexFunction", params, rng)
